@@ -82,6 +82,9 @@ structure Owner where
   /-- the event is delivered by `run_event_whilefalse` (key and mouse events) -/
   wf : Int → Bool
   canEmit : Int → Bool
+  /-- the owner's emitters hold a reference on it while they run its handlers
+      (`tickit_pen_ref(pen); run_events(…); tickit_pen_unref(pen)`: fixes/C16_emitter_ref.patch) -/
+  holdsRef : Bool := false
 
 /-- Trace events.  Observable: `enter`, `leave`, `actBegin`, `actEnd`, `bound` (the id).
     Ghost: `unbindReq`, `fire`, `occBegin`, `occEnd` and the `key`/`occ` fields. -/
@@ -114,8 +117,12 @@ structure St where
   nextOcc : Nat
   /-- newest first -/
   log : List Ev
+  /-- the owner's reference count -/
+  refs : Nat := 1
+  /-- the owner has been destroyed and freed -/
+  dead : Bool := false
 
-def St.init : St := ⟨[], false, false, [], fun _ => 0, 1, []⟩
+def St.init : St := ⟨[], false, false, [], fun _ => 0, 1, [], 1, false⟩
 
 inductive Res (α : Type) where
   | ok (a : α)
@@ -204,6 +211,10 @@ def spliceAt (l : List Node) (loc : Loc) (k : Nat) : Option (List Node) :=
     | some _ => some (throughKey l p ++ afterKey l k)
 
 inductive Task
+  /-- the owner's emitter around `run_events` (takes and drops a reference if `Owner.holdsRef`) -/
+  | emitter (wf : Bool) (ev : Int)
+  /-- `tickit_pen_unref` / `tickit_term_unref`: destroys the owner when the count reaches zero -/
+  | unref
   /-- `tickit_bindings_run_event` (`wf = false`) / `tickit_bindings_run_event_whilefalse` -/
   | runEvent (wf : Bool) (ev : Int)
   /-- the `for(bind = …; bind; bind = bind->next)` loop of a walker, standing at `cur` -/
@@ -229,6 +240,24 @@ def exec : Nat → Task → St → Res (St × Int)
   | 0, _, _ => .outOfFuel
   | fuel + 1, task, st =>
     match task with
+    | .emitter wf ev =>
+      let st1 := if own.holdsRef then { st with refs := st.refs + 1 } else st
+      match exec fuel (.runEvent wf ev) st1 with
+      | .ok (st2, r) =>
+        if own.holdsRef then
+          match exec fuel .unref st2 with
+          | .ok (st3, _) => .ok (st3, r)
+          | e => e
+        else .ok (st2, r)
+      | e => e
+    | .unref =>
+      if st.dead || st.refs == 0 then .ub "unref of an owner that is already destroyed"
+      else if st.refs == 1 then
+        -- destroy(): tickit_bindings_unbind_and_destroy, then free
+        match exec fuel (.destroyLoop st.list.reverse) st with
+        | .ok (st1, _) => .ok ({ st1 with refs := 0, dead := true }, 0)
+        | e => e
+      else .ok ({ st with refs := st.refs - 1 }, 0)
     | .runEvent wf ev =>
       -- int was_iterating = bindings->is_iterating; bindings->is_iterating = true;
       let was := st.isIter
@@ -237,6 +266,8 @@ def exec : Nat → Task → St → Res (St × Int)
       match exec fuel (.walk wf ev occ (firstOf st1.list)) st1 with
       | .ok (st2, r) =>
         -- bindings->is_iterating = was_iterating; if(!was_iterating && bindings->needs_delete) cleanup(bindings);
+        -- (`bindings` lives inside the owner)
+        if st2.dead then .ub "walker: the owner was freed during the iteration" else
         let st3 := { st2 with isIter := was, log := Ev.occEnd occ :: st2.log }
         if !was && st3.needsDelete then
           .ok ({ st3 with list := sweep st3.list, needsDelete := false }, r)
@@ -283,6 +314,7 @@ def exec : Nat → Task → St → Res (St × Int)
       match as with
       | [] => .ok (st, 0)
       | a :: rest =>
+        if st.dead then .ub "handler: the owner is used after it was destroyed" else
         let st1 := st.push (Ev.actBegin i)
         let r : Res (St × Int) := match a with
           | .bind ev first flags h => .ok (bindEvent st1 ev first flags h, 0)
@@ -292,8 +324,8 @@ def exec : Nat → Task → St → Res (St × Int)
           | .unbindSelf => match st1.slotIds[self]? with
             | none => .ok (st1, 0)
             | some id => exec fuel (.unbindId id) st1
-          | .emit ev => if own.canEmit ev then exec fuel (.runEvent (own.wf ev) ev) st1 else .ok (st1, 0)
-          | .destroy => .ub "owner destroyed from inside one of its own handlers"
+          | .emit ev => if own.canEmit ev then exec fuel (.emitter (own.wf ev) ev) st1 else .ok (st1, 0)
+          | .destroy => exec fuel .unref st1
         match r with
         | .ok (st2, _) => exec fuel (.acts self (i + 1) rest) (st2.push Ev.actEnd)
         | e => e
@@ -372,7 +404,7 @@ def execOp (fuel : Nat) (op : Op) (st : St) : Res St :=
     | some id => (exec cfg own beh fuel (.unbindId id) st).dropRet
   | .unbindId id => (exec cfg own beh fuel (.unbindId id) st).dropRet
   | .emit ev =>
-    if own.canEmit ev then (exec cfg own beh fuel (.runEvent (own.wf ev) ev) st).dropRet
+    if own.canEmit ev then (exec cfg own beh fuel (.emitter (own.wf ev) ev) st).dropRet
     else .ok st
   | .destroy =>
     -- tickit_bindings_unbind_and_destroy: reverse the chain, notify, free
@@ -389,7 +421,7 @@ def execOps (fuel : Nat) : List Op → St → Res St
 end
 
 /-- Owners used by the harness. -/
-def Owner.pen : Owner := ⟨fun _ => false, fun ev => ev = 1⟩
-def Owner.term : Owner := ⟨fun ev => decide (ev ≥ 2), fun ev => decide (1 ≤ ev ∧ ev ≤ 3)⟩
+def Owner.pen : Owner := ⟨fun _ => false, fun ev => ev = 1, false⟩
+def Owner.term : Owner := ⟨fun ev => decide (ev ≥ 2), fun ev => decide (1 ≤ ev ∧ ev ≤ 3), false⟩
 
 end Tickit.Bindings
